@@ -318,6 +318,9 @@ def planner_family(ctx, prop, mc_extra_props=(), qdeps=2):
         planner_s2i(ctx, r["replay"], invs_t, variants=3)
         planner_i2s(ctx, invs_t, count=400, nmin=4, nmax=60, nres=10)
         planner_i2s(ctx, invs_t, count=40, nmin=100, nmax=400, nres=16, extra=["--pbatch", 0.03], seed_off=1)
+    # the library built without debug assertions / overflow checks (what --release gives): random programs again
+    with nodebug_pass(ctx):
+        planner_i2s(ctx, invs_t, count=25 if ctx.quick() else 300, nmin=4, nmax=60, nres=8, extra=["--pbatch", 0.05], seed_off=3)
     ctx.cov["exhaustive"] = False
     ctx.assumptions += [
         "TLC explores the planner model exhaustively only within the stated constants",
@@ -348,6 +351,8 @@ def exec_family(ctx, prop, extra=(), nopar=False, mc=("flat",), mc_thorough=(), 
             exec_i2s(ctx, invs, count=30, nmin=60, nmax=300, nres=14, dispatches=2, extra=list(extra) + ["--gated", 0.5], seed_off=1)
         if nopar:
             exec_i2s(ctx, invs, count=100, nmin=3, nmax=40, dispatches=3, extra=extra, parallel=False, seed_off=2)
+    with nodebug_pass(ctx):
+        exec_i2s(ctx, invs, count=12 if ctx.quick() else 200, nmin=3, nmax=30, dispatches=3, extra=extra, seed_off=4)
     ctx.assumptions += [
         "events are logged under one mutex while the logging system holds its guards (fetch after acquire, finish before release)",
         "the controller provokes maximal overlap by holding every started system inside run; timing affects only which schedules are seen",
@@ -427,6 +432,12 @@ def check_C11(ctx):
     for x in st["samples"][:2]:
         ctx.sample({"kind": "rendezvous run", "case": x})
     validate_blocks(ctx, "RendezvousTrace", out, ["InvC11"], classify=None)
+    with nodebug_pass(ctx):
+        out = ctx.fresh("rv", "ndjson")
+        st = run_bin(ctx, "exec", ["rendezvous", "--seed", ctx.seed + 50, "--out", out, "--reps", 2, "--wmax", 6 if ctx.quick() else 16], timeout=3000)
+        ctx.cov["impl_runs"].append({"kind": "impl->spec rendezvous runs", "runs": st["runs"], "reproduced_stalls": st["stalls"]})
+        ctx.cov["traces_validated_against_impl"] += st["runs"]
+        validate_blocks(ctx, "RendezvousTrace", out, ["InvC11"], classify=None)
     ctx.assumptions += ["a stall is a 20 s timeout of a rendezvous system that reproduces in two immediate repetitions",
                         "C11 can only be refuted on the implementation (reproducible stall), never proved"]
 
@@ -474,6 +485,13 @@ def check_C13(ctx):
         ctx.cov["traces_validated_against_impl"] += st["programs"]
         for x in st["samples"][:1]:
             ctx.sample({"kind": "program whose setup/dispose was recorded", "prog": x})
+        validate_blocks(ctx, "ShredTrace", out, ["InvC13", "InvStruct"], classify=classify_block)
+    with nodebug_pass(ctx):
+        out = ctx.fresh("lc", "ndjson")
+        st = run_bin(ctx, "exec", ["lifecycle", "--seed", ctx.seed * 1000 + 9, "--count", 25 if ctx.quick() else 300, "--nmax", 20, "--out", out])
+        ctx.cov["impl_runs"].append({"kind": "impl->spec setup/dispose traces", "programs": st["programs"], "systems": st["systems"],
+                                     "events": st["events"], "max_batch_depth": st["max_batch_depth"]})
+        ctx.cov["traces_validated_against_impl"] += st["programs"]
         validate_blocks(ctx, "ShredTrace", out, ["InvC13", "InvStruct"], classify=classify_block)
     # AsyncDispatcher::setup (also while a dispatch is in flight: it must wait and then reach everything)
     async_stage(ctx, ["InvC13", "InvC15"], 40 if ctx.quick() else 400, extra=["--setuplog", "--ptl", 0.15])
@@ -548,6 +566,8 @@ def check_C15(ctx):
         for x in st["samples"][:1]:
             ctx.sample({"kind": "async session", "case": x})
         validate_blocks(ctx, "ShredTrace", out, invs, classify=classify_block)
+    with nodebug_pass(ctx):
+        async_stage(ctx, invs, 15 if ctx.quick() else 200, extra=["--calls", 10, "--ppanic", 0.15], seed_off=8)
     ctx.assumptions += ["caller calls are logged before and after the real call from the calling thread; background systems log under the same mutex",
                         "no claim about how soon running() turns false after the last system"]
 
@@ -571,6 +591,8 @@ def check_C18(ctx):
         planner_i2s(ctx, invs, count=600, nmin=4, nmax=60, nres=6, extra=["--pill", 0.2])
         planner_i2s(ctx, invs, count=40, nmin=150, nmax=500, nres=10, extra=["--pill", 0.03], seed_off=1)
         planner_i2s(ctx, invs, count=300, nmin=20, nmax=120, nres=2, extra=["--pdep", 0.05, "--funnel", 5000], seed_off=2)
+    with nodebug_pass(ctx):
+        planner_i2s(ctx, invs, count=30 if ctx.quick() else 300, nmin=4, nmax=40, nres=6, extra=["--pill", 0.2, "--pbatch", 0.2], seed_off=6)
     ctx.assumptions.append("panic messages are classified by their text (No such system registered / Cannot insert multiple systems)")
 
 
@@ -614,7 +636,9 @@ def check_C19(ctx):
         validate_blocks(ctx, "ShredTrace", m, invs, classify=classify_block)
         ctx.cov["impl_runs"].append({"kind": "two processes (with / without `parallel`) merged per program", "programs": cnt,
                                      "variants_total": 2 * nvar})
-    ctx.assumptions.append("two processes and two feature configurations are sampled, not all")
+    with nodebug_pass(ctx):
+        planner_i2s(ctx, invs, count=20 if ctx.quick() else 200, nmin=4, nmax=60, nres=8, variants=nvar, seed_off=5)
+    ctx.assumptions.append("two processes and two feature configurations (plus one run without debug assertions) are sampled, not all")
 
 
 def check_C10(ctx):
